@@ -442,8 +442,16 @@ func c03Representations(cc *c03Call, in any, args []any, base c03Outcome) string
 		return ""
 	}
 	textual := c03Textual[cc.name] || strings.HasPrefix(cc.name, "_to") || strings.HasPrefix(cc.name, "@")
-	for class := 1; class < 5; class++ {
-		lifted := liftTuple(tuple, class, textual)
+	// classes 1..4: every number in the same representation; 5..8: the representation rotates from number to number,
+	// so that equal numbers of the input and the arguments meet in different representations
+	for class := 1; class < 9; class++ {
+		var lifted any
+		if class < 5 {
+			lifted = liftTuple(tuple, class, textual)
+		} else {
+			k := class - 5
+			lifted = liftTupleWith(tuple, func() int { k++; return k }, textual)
+		}
 		if lifted == nil || univ.Repr(lifted) == univ.Repr(tuple) {
 			continue
 		}
@@ -487,20 +495,34 @@ func containsNumber(v any) bool {
 // (2^53, MaxFloat] have no interchangeable partner and stay as they are. For textual
 // functions only exact integer representations are exchanged.
 func liftTuple(v any, class int, textual bool) any {
+	return liftTupleWith(v, func() int { return class }, textual)
+}
+
+// liftTupleWith asks next() for the representation class of every number it meets (arrays in order, object keys sorted).
+func liftTupleWith(v any, next func() int, textual bool) any {
 	switch v := v.(type) {
 	case []any:
 		w := make([]any, len(v))
 		for i, x := range v {
-			w[i] = liftTuple(x, class, textual)
+			w[i] = liftTupleWith(x, next, textual)
 		}
 		return w
 	case map[string]any:
 		w := make(map[string]any, len(v))
-		for k, x := range v {
-			w[k] = liftTuple(x, class, textual)
+		keys := make([]string, 0, len(v))
+		for k := range v {
+			keys = append(keys, k)
+		}
+		sort.Strings(keys)
+		for _, k := range keys {
+			w[k] = liftTupleWith(v[k], next, textual)
 		}
 		return w
 	}
+	if _, ok := univ.NumOf(v); !ok {
+		return v
+	}
+	class := next()
 	n, ok := univ.NumOf(v)
 	if !ok {
 		return v
@@ -636,7 +658,7 @@ func init() {
 	engine.Register(&engine.Check{
 		ID:    "C03",
 		Level: "exploration",
-		Rule: "for every builtin name/arity reported by `builtins` (arity <= 2) and the @format natives: all (input, arg1, arg2) tuples over the builtin universe (every type, empty/singleton/nested containers, boundary and huge numbers in every Go representation, NaN/inf, multi-byte and invalid UTF-8 strings, path- and entry-shaped values); each tuple is checked for totality and catchability, against a reference native written from the manual where one exists (~45 natives, + - * / % on all type pairs, 25 math functions), and for representation independence under every uniform re-lifting of its numbers; " +
+		Rule: "for every builtin name/arity reported by `builtins` (arity <= 2) and the @format natives: all (input, arg1, arg2) tuples over the builtin universe (every type, empty/singleton/nested containers, boundary and huge numbers in every Go representation, NaN/inf, multi-byte and invalid UTF-8 strings, path- and entry-shaped values); each tuple is checked for totality and catchability, against a reference native written from the manual where one exists (~45 natives, + - * / % on all type pairs, 25 math functions), and for representation independence under every uniform re-lifting of its numbers and under 4 rotating re-liftings (equal numbers of input and arguments meet in different representations); " +
 			"every jq-defined builtin x filter arguments x 20 inputs is compared with its published definition in builtin.jq interpreted by the reference interpreter, and builtin.go is tied to builtin.jq definition by definition. All tuples are distinct by construction.",
 		Assume:         []string{"reference natives transcribe the jq manual and decline (undefined) outside the domain they are sure about", "natives without a reference (bessel/gamma family, date formatting) get totality, catchability and representation independence only"},
 		Run:            c03Run,
